@@ -4,6 +4,7 @@ import (
 	"errors"
 	"fmt"
 	"math/rand"
+	"net"
 	"strings"
 	"sync"
 	"time"
@@ -12,6 +13,7 @@ import (
 	"github.com/IBM/fluent-forward-go/fluent/client/ws"
 	"github.com/IBM/fluent-forward-go/fluent/client/ws/ext"
 	"github.com/IBM/fluent-forward-go/fluent/protocol"
+	"github.com/gorilla/websocket"
 
 	"verif/harness/core"
 	"verif/harness/fakes"
@@ -436,6 +438,7 @@ func C17(c *core.Ctx) {
 	if !fine {
 		c17SelfClosed(c)
 		c17SetupFails(c)
+		c17RealConnection(c)
 	}
 	total, allEx := 0, true
 	for _, cf := range confs {
@@ -542,6 +545,19 @@ func c17SelfClosed(c *core.Ctx) {
 		f.mu.Unlock()
 		conn.SelfClose()
 		time.Sleep(2 * time.Millisecond)
+		if withErr {
+			// the reader ended with an error on a connection that reports Closed() by then (the default read
+			// handler closes it first): that error is what sends return
+			var serr error
+			for dl := time.Now().Add(time.Second); time.Now().Before(dl); time.Sleep(time.Millisecond) {
+				if serr = cl.SendRaw([]byte{1}); serr == errListen {
+					break
+				}
+			}
+			if serr != errListen {
+				c.Violation("judge-go", "c17-sticky-error", fmt.Sprintf("the reader ended with an error on a connection that had closed by itself, but SendRaw returns %v", serr), replay)
+			}
+		}
 		f.mu.Lock()
 		f.dialOK[s.Name()] = false
 		f.mu.Unlock()
@@ -569,5 +585,88 @@ func c17SelfClosed(c *core.Ctx) {
 			_ = x.Close()
 		}
 		f.mu.Unlock()
+	}
+}
+
+// realConnFactory keeps the library's own ws.Connection (over a scripted ext.Conn) in the session, instead of the
+// stand-in the other phases use: the default read handler closes the connection when the reader fails, so the
+// connection reports Closed() by the time Listen returns the error.
+type realConnFactory struct {
+	mu    sync.Mutex
+	conns []*fakes.ExtConn
+}
+
+func (f *realConnFactory) New() (ext.Conn, error) {
+	ec := fakes.NewExtConn()
+	f.mu.Lock()
+	f.conns = append(f.conns, ec)
+	f.mu.Unlock()
+	return ec, nil
+}
+
+func (f *realConnFactory) NewSession(conn ws.Connection) *client.WSSession {
+	return &client.WSSession{Connection: conn}
+}
+
+// c17RealConnection: reader faults on the genuine connection object: the error the reader ended with is what later
+// sends return, until a successful Reconnect.
+func c17RealConnection(c *core.Ctx) {
+	faults := []fakes.PeerItem{{Kind: "neterr"}, {Kind: "close", Code: 1011}, {Kind: "close", Code: 1008}, {Kind: "close", Code: 1001}}
+	for _, fault := range faults {
+		for _, raw := range []bool{false, true} {
+			f := &realConnFactory{}
+			cl := client.NewWS(client.WSConnectionOptions{Factory: f, ConnectionOptions: ws.ConnectionOptions{CloseDeadline: wsCloseDeadline}})
+			replay := map[string]interface{}{"scenario": "Connect; send; the peer breaks the connection (reader ends with an error on the library's own ws.Connection); send; send; Reconnect; send", "fault": fault.Kind, "code": fault.Code, "raw": raw}
+			send := func() error {
+				if raw {
+					return cl.SendRaw([]byte{0x93, 0xa1, 't', 0x01, 0x80})
+				}
+				return cl.Send(&protocol.Message{Tag: "t", Timestamp: 1, Record: map[string]interface{}{}})
+			}
+			if err := cl.Connect(); err != nil {
+				c.Violation("judge-go", "c17-real-connection", "Connect failed: "+err.Error(), replay)
+				continue
+			}
+			if err := send(); err != nil {
+				c.Violation("judge-go", "c17-real-connection", "send on a healthy connection failed: "+err.Error(), replay)
+			}
+			ec := f.conns[0]
+			ec.Lock()
+			ec.Script = append(ec.Script, fault)
+			ec.Unlock()
+			ec.Wake()
+			// the reader's error, as the connection's Listen reports it: a close error with that code / a network error
+			isReaderErr := func(err error) bool {
+				if err == nil {
+					return false
+				}
+				if fault.Kind == "close" {
+					return websocket.IsCloseError(err, fault.Code)
+				}
+				var ne net.Error
+				return errors.As(err, &ne)
+			}
+			var err1 error
+			deadline := time.Now().Add(2 * time.Second)
+			for {
+				err1 = send()
+				if isReaderErr(err1) || time.Now().After(deadline) {
+					break
+				}
+				time.Sleep(2 * time.Millisecond)
+			}
+			err2 := send()
+			c.Eval()
+			c.Hist("reader fault on the library's own connection: " + fault.Kind)
+			if !isReaderErr(err1) || !isReaderErr(err2) {
+				c.Violation("judge-go", "c17-sticky-error", fmt.Sprintf("the reader of the session ended with an error (%s %d) but later sends return %v, then %v", fault.Kind, fault.Code, err1, err2), replay)
+			}
+			if err := cl.Reconnect(); err != nil {
+				c.Violation("judge-go", "c17-real-connection", "Reconnect failed: "+err.Error(), replay)
+			} else if err := send(); err != nil {
+				c.Violation("judge-go", "c17-sticky-error", "a send after a successful Reconnect still fails: "+err.Error(), replay)
+			}
+			_ = cl.Disconnect()
+		}
 	}
 }
